@@ -192,6 +192,12 @@ constexpr bool contains(const size_t (&ind)[N], int num){
     return find_index(ind,num)!=N;
 }
 
+// how many times does the number num occur in the array ind
+template<size_t N>
+constexpr size_t count_occurrences(const size_t (&ind)[N], size_t num, size_t i=0){
+    return (i==N) ? 0 : ((ind[i]==num ? 1 : 0) + count_occurrences(ind,num,i+1));
+}
+
 
 template<class Dims>
 struct put_dims_in_Index;
@@ -213,8 +219,12 @@ struct is_vectorisable<Index<Idx0...>,Index<Idx1...>,Tensor<T,Rest...>> {
     template<typename ABI> using _vec_size = internal::get_simd_vector_size<SIMDVector<T,ABI>>;
     static constexpr size_t fastest_changing_index = get_value<sizeof...(Rest),Rest...>::value;
     static constexpr size_t idx[sizeof...(Idx0)] = {Idx0...};
+    static constexpr size_t idx1[sizeof...(Idx1)] = {Idx1...};
     static constexpr bool does_2nd_tensor_disappear = ((int)no_of_unique<Idx0...,Idx1...>::value == (int)sizeof...(Idx0) - (int)sizeof...(Idx1));
-    static constexpr bool last_index_contracted = contains(idx,get_value<sizeof...(Idx1),Idx1...>::value);
+    // the last index of the second tensor is contracted if it also appears in the first tensor
+    // or if it is repeated within the second tensor itself
+    static constexpr bool last_index_contracted = contains(idx,get_value<sizeof...(Idx1),Idx1...>::value) ||
+            count_occurrences(idx1,get_value<sizeof...(Idx1),Idx1...>::value) > 1;
     static constexpr bool is_reducible = does_2nd_tensor_disappear && last_index_contracted;
     static constexpr bool value = (!last_index_contracted) && (fastest_changing_index % _vec_size<simd_abi::sse>::value==0);
     static constexpr bool sse_vectorisability = (!last_index_contracted) &&
@@ -232,8 +242,12 @@ template<size_t ...Idx0, size_t ...Idx1, size_t...Rest>
 struct is_vectorisable<Index<Idx0...>,Index<Idx1...>,Tensor<float,Rest...>> {
     static constexpr size_t fastest_changing_index = get_value<sizeof...(Rest),Rest...>::value;
     static constexpr size_t idx[sizeof...(Idx0)] = {Idx0...};
+    static constexpr size_t idx1[sizeof...(Idx1)] = {Idx1...};
     static constexpr bool does_2nd_tensor_disappear = ((int)no_of_unique<Idx0...,Idx1...>::value == (int)sizeof...(Idx0) - (int)sizeof...(Idx1));
-    static constexpr bool last_index_contracted = contains(idx,get_value<sizeof...(Idx1),Idx1...>::value);
+    // the last index of the second tensor is contracted if it also appears in the first tensor
+    // or if it is repeated within the second tensor itself
+    static constexpr bool last_index_contracted = contains(idx,get_value<sizeof...(Idx1),Idx1...>::value) ||
+            count_occurrences(idx1,get_value<sizeof...(Idx1),Idx1...>::value) > 1;
     static constexpr bool is_reducible = does_2nd_tensor_disappear && last_index_contracted;
     static constexpr bool value = (!last_index_contracted) && (fastest_changing_index % 4==0);
     static constexpr bool sse_vectorisability = (!last_index_contracted) && (fastest_changing_index % 4==0 && fastest_changing_index % 8!=0);
@@ -248,8 +262,12 @@ template<size_t ...Idx0, size_t ...Idx1, size_t...Rest>
 struct is_vectorisable<Index<Idx0...>,Index<Idx1...>,Tensor<double,Rest...>> {
     static constexpr size_t fastest_changing_index = get_value<sizeof...(Rest),Rest...>::value;
     static constexpr size_t idx[sizeof...(Idx0)] = {Idx0...};
+    static constexpr size_t idx1[sizeof...(Idx1)] = {Idx1...};
     static constexpr bool does_2nd_tensor_disappear = ((int)no_of_unique<Idx0...,Idx1...>::value == (int)sizeof...(Idx0) - (int)sizeof...(Idx1));
-    static constexpr bool last_index_contracted = contains(idx,get_value<sizeof...(Idx1),Idx1...>::value);
+    // the last index of the second tensor is contracted if it also appears in the first tensor
+    // or if it is repeated within the second tensor itself
+    static constexpr bool last_index_contracted = contains(idx,get_value<sizeof...(Idx1),Idx1...>::value) ||
+            count_occurrences(idx1,get_value<sizeof...(Idx1),Idx1...>::value) > 1;
     static constexpr bool is_reducible = does_2nd_tensor_disappear && last_index_contracted;
     static constexpr bool value = (!last_index_contracted) && (fastest_changing_index % 2==0);
     static constexpr bool sse_vectorisability = (!last_index_contracted) && (fastest_changing_index % 2==0 && fastest_changing_index % 4!=0);
@@ -617,7 +635,9 @@ struct is_generalised_matrix_vector<Index<Idx0...>,Index<Idx1...> > {
     static constexpr size_t which_one_is_vector = sizeof...(Idx0) > sizeof...(Idx1) ? 1 : 0;
     static constexpr size_t idx0[sizeof...(Idx0)] = {Idx0...};
     static constexpr size_t idx1[sizeof...(Idx1)] = {Idx1...};
-    static constexpr bool value = match_indices_from_end(idx0, idx1) && sizeof...(Idx0) != sizeof...(Idx1);
+    // an index repeated within one of the tensors is a trace over that tensor and not a gemv
+    static constexpr bool no_repeats = no_of_unique<Idx0...>::value == sizeof...(Idx0) && no_of_unique<Idx1...>::value == sizeof...(Idx1);
+    static constexpr bool value = no_repeats && match_indices_from_end(idx0, idx1) && sizeof...(Idx0) != sizeof...(Idx1);
     static constexpr size_t matches_up_to = match_indices_from_end_index(idx0, idx1);
 };
 
@@ -630,7 +650,9 @@ struct is_generalised_vector_matrix<Index<Idx0...>,Index<Idx1...> > {
     static constexpr size_t which_one_is_vector = sizeof...(Idx0) > sizeof...(Idx1) ? 1 : 0;
     static constexpr size_t idx0[sizeof...(Idx0)] = {Idx0...};
     static constexpr size_t idx1[sizeof...(Idx1)] = {Idx1...};
-    static constexpr bool value = match_indices_from_start(idx0, idx1) && sizeof...(Idx0) != sizeof...(Idx1);
+    // an index repeated within one of the tensors is a trace over that tensor and not a gevm
+    static constexpr bool no_repeats = no_of_unique<Idx0...>::value == sizeof...(Idx0) && no_of_unique<Idx1...>::value == sizeof...(Idx1);
+    static constexpr bool value = no_repeats && match_indices_from_start(idx0, idx1) && sizeof...(Idx0) != sizeof...(Idx1);
     static constexpr size_t matches_up_to = match_indices_from_start_index(idx0, idx1);
 };
 
@@ -646,7 +668,9 @@ struct is_generalised_matrix_matrix<Index<Idx0...>,Index<Idx1...> > {
     static constexpr bool is_inner = sizeof...(Idx0) == sizeof...(Idx1) && no_of_unique<Idx0...,Idx1...>::value == sizeof...(Idx1);
     static constexpr size_t idx0[sizeof...(Idx0)] = {Idx0...};
     static constexpr size_t idx1[sizeof...(Idx1)] = {Idx1...};
-    static constexpr bool value = !is_mat_vec && !is_vec_mat && !is_inner && match_indices_from_two_ends(idx0, idx1, ncontracted);
+    // an index repeated within one of the tensors is a trace over that tensor and not a gemm
+    static constexpr bool no_repeats = no_of_unique<Idx0...>::value == sizeof...(Idx0) && no_of_unique<Idx1...>::value == sizeof...(Idx1);
+    static constexpr bool value = no_repeats && !is_mat_vec && !is_vec_mat && !is_inner && match_indices_from_two_ends(idx0, idx1, ncontracted);
 };
 //--------------------------------------------------------------------------------------------------------------------//
 } // namespace internal
